@@ -529,11 +529,12 @@ Definition i32_in_table (st : list bytes) (v : Z) : Prop := in_table st (int32 v
 
 Lemma members_loop_ok st : forall roles memids types memid i ms ms',
   members_loop st roles memids types memid i ms = Ok ms' ->
-  (i + length roles = length ms)%nat /\ (length roles <= length memids)%nat
+  (i + length roles = length ms)%nat /\ length roles = length memids
   /\ (length roles <= length types)%nat /\ Forall (i32_in_table st) roles.
 Proof.
   induction roles as [|r rr IH]; intros memids types memid i ms ms' H; cbn [members_loop] in H.
-  - apply full_ok in H as [_ ->]. cbn. repeat split; try lia. constructor.
+  - destruct memids as [|mi mr]; [|discriminate].
+    apply full_ok in H as [_ ->]. cbn. repeat split; try lia. constructor.
   - rb H. rb H. rb H. destruct memids as [|mi mr]; [discriminate|].
     destruct types as [|t tr]; [discriminate|]. rb H.
     destruct (upd_ok _ _ _ _ Ha) as [_ Hi]. destruct (upd_ok _ _ _ _ Ha1) as [L1 _].
@@ -542,11 +543,11 @@ Proof.
     cbn [length]. repeat split; try lia. constructor; [exact Ha0|exact I4].
 Qed.
 
-(* roles / memids / types: same length (memids may be longer), every role index in the table *)
+(* roles / memids / types: same length (all three, since fix bf5fa46), every role index in the table *)
 Theorem relation_members_ok p wc m r0 x roles memids types :
   scan_relation p wc m r0 = Ok x ->
   col 8 m = Some roles -> col 9 m = Some memids -> col 10 m = Some types ->
-  length roles = length types /\ (length roles <= length memids)%nat
+  length roles = length types /\ length roles = length memids
   /\ Forall (i32_in_table (p_st p)) roles.
 Proof.
   intros H Hr Hm Ht. destruct (scan_relation_loop _ _ _ _ _ H) as (s & Hl & _ & (ms & Hms)).
@@ -1058,7 +1059,7 @@ Inductive in_block_damage (c : cfg) (m : msg) : Prop :=
   | IB_rel_columns g r roles memids types :
       In (2, WMsg g) m -> In (4, WMsg r) g -> skip_rels c = false ->
       col 8 r = Some roles -> col 9 r = Some memids -> col 10 r = Some types ->
-      length roles <> length types \/ (length memids < length roles)%nat -> in_block_damage c m
+      length roles <> length types \/ length memids <> length roles -> in_block_damage c m
   (* dense keys_vals with fewer delimiters (zero entries) than ids: the column ends, at a node
      boundary or inside a node, before every node is covered *)
   | IB_dense_keyvals_short g d ids kv :
